@@ -78,6 +78,7 @@ type pkgData struct {
 	Lookups []lookupQ   `json:"lookups"`
 	Dir     string      `json:"dir"`
 	Probes  []string    `json:"probes"`
+	PosTies bool        `json:"pos_ties,omitempty"` // two methods of Defs share (file name, offset): their relative order is open
 }
 
 type uNode struct {
@@ -291,8 +292,10 @@ type pkgView struct {
 	probes []token.Pos
 }
 
+// posKey: the key newPkg orders the method lists by (package.go:146-157): file name and offset of the position as
+// Fset.Position reports it (the file name adjusted by //line directives, the offset in the real file).
 func posKey(p types.Package, pos token.Pos) (string, int) {
-	pp := p.FileSet().PositionFor(pos, false)
+	pp := p.FileSet().Position(pos)
 	return pp.Filename, pp.Offset
 }
 
@@ -329,6 +332,26 @@ func buildView(p types.Package, lp *packages.Package, maxProbes int, maxLookups 
 	scope := p.Pkg().Scope()
 	for i, o := range v.defs {
 		v.objID[o] = i + 1
+	}
+	// object ids are ranks in (file name, offset) order; sort.Slice in newPkg is not stable, so the order of two
+	// methods with the same key (only possible through //line directives) is open
+	{
+		type fo struct {
+			f string
+			o int
+		}
+		seenKey := map[fo]bool{}
+		for _, o := range v.defs {
+			if f, ok := o.(*gotypes.Func); ok {
+				if sig, ok := f.Type().(*gotypes.Signature); ok && sig.Recv() != nil {
+					fn, off := posKey(p, o.Pos())
+					if seenKey[fo{fn, off}] {
+						v.data.PosTies = true
+					}
+					seenKey[fo{fn, off}] = true
+				}
+			}
+		}
 	}
 	for i, o := range v.defs {
 		od := objData{ID: i + 1, Kind: kindOf(o), Name: o.Name(), PkgScope: o.Parent() == scope}
@@ -541,8 +564,7 @@ func (v *pkgView) observe(u *types.Universe) pkgObs {
 			}
 			out = append(out, id)
 		}
-		sort.Ints(out)
-		return out
+		return out // in the order MethodsOf returned them (the model predicts the order: package.go:146-157)
 	}
 	for _, nm := range v.qTypes {
 		o.Methods = append(o.Methods, [2][]int{ids(p.MethodsOf(nm, true)), ids(p.MethodsOf(nm, false))})
